@@ -1149,6 +1149,11 @@ def known_witnesses() -> dict:
     n = f.node.add(op_type="If", output=["y"])
     n.attribute.add(name="then_branch", ref_attr_name="body", type=onnx.AttributeProto.GRAPH)
     w["ref-graph-attr-crash"] = ("model", m)
+    # (fixed 66aa20a) proto-backed tensor metadata was emitted twice
+    t = onnx.TensorProto(name="t", data_type=1, dims=[1])
+    t.float_data.append(1.0)
+    t.metadata_props.add(key="k", value="v")
+    w["tensorproto-metadata-duplicated"] = ("tensor", t)
     return w
 
 
@@ -1174,6 +1179,9 @@ def classify_known(diffs: list[str]) -> str | None:
 def replay_known(ck) -> None:
     wit = known_witnesses()
     for k in ck._known:
+        if k["key"] not in wit:
+            ck.broken(f"known-finding-without-witness:{k['key']}", "no witness registered in c02.known_witnesses")
+            continue
         kind, p = wit[k["key"]]
         diffs = oracle_case(kind, p)
         ck.count()
@@ -1356,8 +1364,13 @@ def run(ck) -> None:
              "are opaque bytes)")
     ck.assumptions += ["onnx 1.22 / protobuf upb as installed in /venv", "tensor payloads are not interpreted"]
     generate(ck)
-    proved = ck.prove()
-    ck.level = "proof"
+    ck.prove()
+    # the principal theorem C02_roundtrip is proved for the stages below the graph level only
+    # (C02_roundtrip_partial + the stage theorems); graph/function/model are validated per case in Coq.
+    ck.level = "translation_validation"
+    ck.notes.append("principal theorem partial: proved stages dims/shapes/types, tensors, value-info, attributes "
+                    "(all kinds), nodes in a scope stack; missing: graph/scoping, function, model — for those the "
+                    "case files evaluate wf p -> norm (ser (deser p)) = norm p on every generated proto")
     n_models = 90 if not ck.thorough else 1500
     # 1. corpus
     corpus_dir = os.path.join(common.CORPUS, "C02")
